@@ -508,6 +508,63 @@ fn lifetime(sc: &Scenario) -> Outcome {
     out
 }
 
+/// Sources that resemble the agent's own address: local address `kind` (wildcard IPv4 / IPv6, concrete IPv4 /
+/// IPv6, all on port 5000) x sources {the same IP and port, another IP on the same port, the same IP on
+/// another port, loopback on the same port, exactly the local address} x {request, indication, delivered
+/// response}: whoever an accepted message came from is validated, nobody else is.
+fn ownaddr(sc: &Scenario) -> Outcome {
+    let base = base_instant();
+    let t = if sc.tcp { TransportType::Tcp } else { TransportType::Udp };
+    let mut out = Outcome { breaches: vec![], transcript: vec![] };
+    let locals: [SocketAddr; 4] = ["0.0.0.0:5000".parse().unwrap(), "[::]:5000".parse().unwrap(), "10.1.0.1:5000".parse().unwrap(), "[2001:db8::1]:5000".parse().unwrap()];
+    let local = locals[sc.kind as usize % 4];
+    let v6 = local.is_ipv6();
+    let sources: Vec<SocketAddr> = vec![
+        local,
+        if v6 { "[2001:db8::1]:5000" } else { "10.1.0.1:5000" }.parse().unwrap(),
+        if v6 { "[2001:db8::77]:5000" } else { "192.0.2.77:5000" }.parse().unwrap(),
+        if v6 { "[2001:db8::1]:5001" } else { "10.1.0.1:5001" }.parse().unwrap(),
+        if v6 { "[::1]:5000" } else { "127.0.0.1:5000" }.parse().unwrap(),
+        if v6 { "[2001:db8::77]:3478" } else { "192.0.2.77:3478" }.parse().unwrap(),
+    ];
+    for (si, from) in sources.iter().enumerate() {
+        let mut a = StunAgent::builder(t, local).build();
+        let idv = stid(4_000_000 + si);
+        let delivered = match sc.via {
+            0 | 1 => {
+                let bytes = plain_wire(sc.via, idv);
+                let m = Message::from_bytes(&bytes).unwrap();
+                matches!(a.handle_stun(m, *from), HandleStunReply::IncomingStun(_))
+            }
+            _ => {
+                let sw = Software::new("own").unwrap();
+                let mut rq = Message::builder(MessageType::from_class_method(MessageClass::Request, BINDING), idv.into());
+                rq.add_attribute(&sw).unwrap();
+                if a.send(rq, *from, base).is_err() {
+                    false
+                } else {
+                    let bytes = plain_wire(2, idv);
+                    let m = Message::from_bytes(&bytes).unwrap();
+                    matches!(a.handle_stun(m, *from), HandleStunReply::StunResponse(_))
+                }
+            }
+        };
+        let validated = a.is_validated_peer(*from);
+        out.transcript.push(h(&(delivered, validated)));
+        if !delivered || !validated {
+            out.breaches.push(("C15", "own-address/validated".into(), format!("an agent on {local} is handed a {} from {from}", ["request", "indication", "response to its request"][sc.via as usize % 3]), "handed over / delivered, and the source validated".into(), format!("delivered {delivered}, validated {validated}")));
+            return out;
+        }
+        for other in &sources {
+            if other != from && a.is_validated_peer(*other) {
+                out.breaches.push(("C15", "own-address/validates-another".into(), format!("an agent on {local} accepted a message from {from}"), format!("{other} not validated"), "validated".into()));
+                return out;
+            }
+        }
+    }
+    out
+}
+
 /// Requests of every serialised size (block `n` covers 64 value lengths; `via` 0 = one attribute holding
 /// the whole value, 1 = the same number of bytes as value-less attributes + one short one; `kind` 1 =
 /// the top of the size range).
@@ -864,6 +921,7 @@ pub fn run_scenario(sc: &Scenario) -> Outcome {
         "sizes" => sizes(sc),
         "responses" => responses(sc),
         "lifetime" => lifetime(sc),
+        "ownaddr" => ownaddr(sc),
         _ => transactions(sc),
     }) {
         Ok(o) => o,
@@ -1232,6 +1290,7 @@ pub fn judge(prop: &str, sc: &Scenario, acc: &mut Acc) {
         "fractional" => "fractional configuration: durations that are not whole milliseconds",
         "sizes" => "message sizes: 64 request sizes served to time-out",
         "lifetime" => "lifetime totals: tens of thousands of peers / requests in one agent, then new requests",
+        "ownaddr" => "sources that resemble the agent's own address",
         "responses" => "responses to an authenticated request: 50 error codes x attribute sets",
         _ => "long history: many concurrent requests",
     });
@@ -1315,6 +1374,15 @@ pub fn scenarios(prop: &str, thorough: bool) -> Vec<Scenario> {
             v.push(Scenario { family: "sizes".into(), tcp, kind: 1, n: 0, via: 0, mix: 0, noise: false });
         }
     }
+    if prop == "C15" {
+        for tcp in [false, true] {
+            for kind in 0..4u8 {
+                for via in 0..3u8 {
+                    v.push(Scenario { family: "ownaddr".into(), tcp, kind, n: 1, via, mix: 0, noise: false });
+                }
+            }
+        }
+    }
     if matches!(prop, "C18" | "C15" | "C05") {
         for tcp in [false, true] {
             for kind in 0..3u8 {
@@ -1345,7 +1413,7 @@ pub fn scenarios(prop: &str, thorough: bool) -> Vec<Scenario> {
     }
     if prop == "C06" {
         for tcp in [false, true] {
-            for retransmits in 0..=8u8 {
+            for retransmits in 0..=12u8 {
                 for n in 0..32usize {
                     v.push(Scenario { family: "fractional".into(), tcp, kind: retransmits, n, via: 0, mix: 0, noise: false });
                 }
